@@ -216,3 +216,132 @@ VARIANTS += [
       why='declaration and call agree: the directory argument is the cache root, the destination Join(root, key)'),
  dict(name='writer-params-reordered-call-not', file=F, expect='flagged(set/)', find=SIG_OLD, replace=SIG_SWAPPED),
 ]
+
+# ---- second pass: the steps of the protocol cut between functions at other places (the handle travels as an argument or a
+# ---- result; the rename in a callee), clean-up by an explicit helper or a pass-through closure, the streaming hash
+def wf_handle(fill='if err := fillAndClose(tempFile, content); err != nil {\n\t\tdiscardTempFile(tempFile)\n\t\treturn err\n\t}',
+              write='if _, err := tempFile.Write(content); err != nil {\n\t\treturn fmt.Errorf("failed to write content to temp file: %w", err)\n\t}',
+              close='if err := tempFile.Close(); err != nil {\n\t\treturn fmt.Errorf("failed to close temp file: %w", err)\n\t}',
+              extra=''):
+    return """func WriteFile(tempDir, path string, content []byte) error {
+	tempFile, err := os.CreateTemp(tempDir, tempFileNamePrefix)
+	if err != nil {
+		return fmt.Errorf("failed to create temp file: %w", err)
+	}
+	""" + fill + """
+	if err := os.Rename(tempFile.Name(), path); err != nil {
+		discardTempFile(tempFile)
+		return err
+	}
+	return nil
+}
+
+func fillAndClose(tempFile *os.File, content []byte) error {
+	""" + write + """
+	""" + close + """
+	return nil
+}
+
+func discardTempFile(tempFile *os.File) {
+	tempFile.Close()
+	os.Remove(tempFile.Name())
+}""" + extra
+def wf_commit(call='return commit(tempFile, path)', order=None):
+    if order is None:
+        order = """if err := tempFile.Close(); err != nil {
+		return fmt.Errorf("failed to close temp file: %w", err)
+	}
+	return os.Rename(tempFile.Name(), path)"""
+    return """func WriteFile(tempDir, path string, content []byte) (writeErr error) {
+	tempFile, err := newTempFile(tempDir)
+	if err != nil {
+		return fmt.Errorf("failed to create temp file: %w", err)
+	}
+	defer func() {
+		if writeErr != nil {
+			tempFile.Close()
+			os.Remove(tempFile.Name())
+		}
+	}()
+	if _, err := tempFile.Write(content); err != nil {
+		return fmt.Errorf("failed to write content to temp file: %w", err)
+	}
+	""" + call + """
+}
+
+func newTempFile(dir string) (*os.File, error) {
+	return os.CreateTemp(dir, tempFileNamePrefix)
+}
+
+func commit(tempFile *os.File, path string) error {
+	""" + order + """
+}"""
+def wf_discard(ret='return writeErr', close_ret='return discard(fmt.Errorf("failed to close temp file: %w", err))'):
+    return """func WriteFile(tempDir, path string, content []byte) error {
+	tempFile, err := os.CreateTemp(tempDir, tempFileNamePrefix)
+	if err != nil {
+		return fmt.Errorf("failed to create temp file: %w", err)
+	}
+	discard := func(writeErr error) error {
+		tempFile.Close()
+		os.Remove(tempFile.Name())
+		""" + ret + """
+	}
+	if _, err := tempFile.Write(content); err != nil {
+		return discard(fmt.Errorf("failed to write content to temp file: %w", err))
+	}
+	if err := tempFile.Close(); err != nil {
+		""" + close_ret + """
+	}
+	if err := os.Rename(tempFile.Name(), path); err != nil {
+		return discard(err)
+	}
+	return nil
+}"""
+VARIANTS += [
+ dict(name='benign-writer-fill-helper-takes-handle', file=F, expect='silent', find=WF_OLD, replace=wf_handle(),
+      why='the helper writes and closes the file it is handed, which at its only call is the file CreateTemp returned; Rename is reached only where the helper returned nil, i.e. behind the success edges of Write and Close'),
+ dict(name='handle-helper-close-error-ignored', file=F, expect='flagged(writer/protocol)', find=WF_OLD, replace=wf_handle(close='tempFile.Close()')),
+ dict(name='handle-helper-failure-ignored', file=F, expect='flagged(writer/protocol)', find=WF_OLD, replace=wf_handle(fill='fillAndClose(tempFile, content)')),
+ dict(name='handle-helper-writes-a-prefix', file=F, expect='flagged(writer/protocol)', find=WF_OLD,
+      replace=wf_handle(write='if _, err := tempFile.Write(content[:len(content)&^4095]); err != nil {\n\t\treturn err\n\t}')),
+ dict(name='handle-helper-fed-another-file', file=F, expect='flagged(writer/protocol)', find=WF_OLD,
+      replace=wf_handle(fill='if err := fillAndClose(os.Stdout, content); err != nil {\n\t\tdiscardTempFile(tempFile)\n\t\treturn err\n\t}')),
+ dict(name='handle-helper-second-write-in-cleanup', file=F, expect='flagged(writer/protocol)', find=WF_OLD,
+      replace=wf_handle().replace('\ttempFile.Close()\n\tos.Remove(tempFile.Name())\n}', '\ttempFile.Write([]byte("incomplete"))\n\ttempFile.Close()\n\tos.Remove(tempFile.Name())\n}')),
+ dict(name='benign-writer-create-and-commit-helpers', file=F, expect='silent', find=WF_OLD, replace=wf_commit(),
+      why='the handle comes back from the helper that creates it, Close and Rename stand in a helper that is handed the handle and the destination; the writer forwards that helper\'s error'),
+ dict(name='commit-helper-renames-before-close', file=F, expect='flagged(writer/protocol)', find=WF_OLD,
+      replace=wf_commit(order='if err := os.Rename(tempFile.Name(), path); err != nil {\n\t\treturn err\n\t}\n\treturn tempFile.Close()')),
+ dict(name='commit-helper-error-dropped', file=F, expect='flagged(writer/success-only-after-rename)', find=WF_OLD,
+      replace=wf_commit(call='if len(content) > 0 {\n\t\treturn commit(tempFile, path)\n\t}\n\treturn nil')),
+ dict(name='commit-helper-precreates-destination', file=F, expect='flagged(writer/)', find=WF_OLD,
+      replace=wf_commit(order='if f, err := os.OpenFile(path, os.O_CREATE, 0600); err == nil {\n\t\tf.Close()\n\t}\n\tif err := tempFile.Close(); err != nil {\n\t\treturn err\n\t}\n\treturn os.Rename(tempFile.Name(), path)')),
+ dict(name='benign-writer-discard-closure', file=F, expect='silent', find=WF_OLD, replace=wf_discard(),
+      why='the clean-up closure hands its argument back unchanged: what it returns is the wrapped (non-nil) error or the result of the rename'),
+ dict(name='discard-closure-swallows-error', file=F, expect='flagged(writer/success-only-after-rename)', find=WF_OLD, replace=wf_discard(ret='return nil')),
+ dict(name='discard-closure-fed-nil', file=F, expect='flagged(writer/success-only-after-rename)', find=WF_OLD, replace=wf_discard(close_ret='return discard(nil)')),
+]
+KEY_OLD = '\thash := sha256.Sum256([]byte(url))\n\treturn hex.EncodeToString(hash[:])'
+IMP_OLD = '\t"io/fs"\n'
+def key_stream(feed='io.WriteString(h, url)', digest='h.Sum(nil)', imp='\t"io"\n\t"io/fs"\n'):
+    return [(C, KEY_OLD, '\th := sha256.New()\n\t' + feed + '\n\treturn hex.EncodeToString(' + digest + ')'), (C, IMP_OLD, imp)]
+VARIANTS += [
+ dict(name='benign-key-streaming-hash', expect='silent', edits=key_stream(),
+      why='one write of the whole URL into a fresh SHA-256, Sum(nil): the same 32 bytes as Sum256([]byte(url))'),
+ dict(name='benign-key-streaming-hash-write-bytes', expect='silent', edits=key_stream(feed='h.Write([]byte(url))', imp=IMP_OLD)),
+ dict(name='key-streaming-hash-of-lowered-url', expect='flagged(key/sha256-of-url)', edits=key_stream(feed='io.WriteString(h, strings.ToLower(url))', imp='\t"io"\n\t"io/fs"\n\t"strings"\n')),
+ dict(name='key-streaming-hash-truncated', expect='flagged(key/sha256-of-url)', edits=key_stream(digest='h.Sum(nil)[:8]')),
+ dict(name='key-streaming-hash-url-written-conditionally', expect='flagged(key/sha256-of-url)', edits=key_stream(feed='if len(url) < 2048 {\n\t\tio.WriteString(h, url)\n\t}')),
+ dict(name='key-streaming-hash-appended-to-url', expect='flagged(key/sha256-of-url)', edits=key_stream(digest='h.Sum([]byte(url))')),
+ dict(name='key-one-return-not-hashed', file=C, expect='flagged(key/sha256-of-url)', find=KEY_OLD,
+      replace='\tif len(url) < 16 {\n\t\treturn hex.EncodeToString([]byte(url))\n\t}\n' + KEY_OLD),
+ dict(name='key-of-lowered-url-at-call', file=C, expect='flagged()', find='contentBytes, err := os.ReadFile(filepath.Join(c.root, c.fileName(url)))',
+      replace='contentBytes, err := os.ReadFile(filepath.Join(c.root, c.fileName(strings.ToLower(url))))', edits=[(C, '\t"path/filepath"\n', '\t"path/filepath"\n\t"strings"\n')]),
+]
+VARIANTS += [
+ dict(name='handle-helper-appends-trailer', file=F, expect='flagged(writer/protocol)', find=WF_OLD,
+      replace=wf_handle(close='if _, err := tempFile.WriteString("\\n"); err != nil {\n\t\treturn err\n\t}\n\tif err := tempFile.Close(); err != nil {\n\t\treturn fmt.Errorf("failed to close temp file: %w", err)\n\t}')),
+ dict(name='writer-truncates-before-close', file=F, expect='flagged(writer/protocol)',
+      find='\t// close before moving\n', replace='\tif err := tempFile.Truncate(int64(len(content) &^ 4095)); err != nil {\n\t\treturn err\n\t}\n'),
+]
